@@ -1,7 +1,7 @@
 (* C13 — each link has its own identity; calls and failures never cross links.
    Model: Registry.v, the product of per-link endpoints; a step of one link is a step of that
    component only.  What the links share (closure table, remotes table) is keyed by fresh ids. *)
-From Verif Require Import Base Link Registry.
+From Verif Require Import Base Link LinkInvH Registry RegistryProofs.
 
 Theorem link_isolation :
   forall v callss rs k c b rs' j,
@@ -24,3 +24,38 @@ Proof.
   intros v callss rs k c b rs' j s H Hne Hs. exists s. rewrite (link_isolation _ _ _ _ _ _ _ _ H Hne). auto.
 Qed.
 Print Assumptions failure_isolated.
+
+(* every component of a reachable state of the product is a reachable state of its own link: all
+   per-link theorems (C01 routing, C03 progress, C12, C14, C15, C16 ...) hold for every link of a
+   registry with any number of links, whatever the other links do *)
+Theorem component_reachable :
+  forall callss n rs k s,
+    rreachable fixed callss n rs -> nth_error rs k = Some s -> lreachable fixed (nth k callss []) s.
+Proof. exact component_reachable_lemma. Qed.
+Print Assumptions component_reachable.
+
+(* identity: link k is enumerated exactly between its connect pair and its disconnect pair, nothing
+   of it is handled before the connect pair, and enumerated identities are pairwise distinct *)
+Theorem enumeration_matches_hooks :
+  forall callss n rs k s,
+    rreachable fixed callss n rs -> nth_error rs k = Some s ->
+    (In k (enumerated rs) <-> rev (hooks_of (evs s)) = [(true, false); (true, true)]) /\
+    (rev (hooks_of (evs s)) = [] -> invoked_any (evs s) = false).
+Proof. exact enumeration_matches_hooks_lemma. Qed.
+Print Assumptions enumeration_matches_hooks.
+
+Theorem enumerated_ids_distinct :
+  forall (rid : nat -> N) rs, (forall a b, rid a = rid b -> a = b) -> NoDup (enumerated_ids rid rs).
+Proof. exact enumerated_ids_distinct_lemma. Qed.
+Print Assumptions enumerated_ids_distinct.
+
+(* non-vacuity: three links, the second one connected and then failed, the third one connected *)
+Example product_run :
+  exists rs, rreachable fixed [[]; []; []] 3 rs /\ enumerated rs = [2].
+Proof.
+  eexists. split.
+  - exists [(1, Run TSetup, 0); (2, Run TSetup, 0); (1, Env (EFailReadReq 1%N), 0); (1, Env (EFailReadRes 2%N), 0);
+            (1, Run TReqLoop, 0); (1, Run TResLoop, 0); (1, Run TSetup, 0)].
+    vm_compute. reflexivity.
+  - reflexivity.
+Qed.
